@@ -191,4 +191,208 @@ theorem maArgmin_eq (dis : List (List Rat)) (bf : Rat) (s : St) (n : Nat) (hn : 
     obtain ⟨_, rfl, h3, h4⟩ := h
     exact ⟨rfl, h4, h3⟩
 
+/-! ## one iteration -/
+
+/-- `self.furcations` as the model's limit: `-1` = no limit; any other value `k` is the limit `max k 0` (a negative limit other than
+`-1` saturates every point at its first child, exactly as limit `0`) -/
+def limitOf (k : Int) : Option Nat := if k = -1 then none else some k.toNat
+
+/-- the record of the generated function's variables that represents the model state `s` (scratch variables arbitrary) -/
+def toV (n : Nat) (dis : List (List Rat)) (bf : Rat) (k : Int) (ex : Bool) (s : St) (cost : Py.Masked2 Rat) (i j u : Int) :
+    mst_loop.V Rat :=
+  { n := n, dis := dis, bf := bf, limit := k, exclude_soma := ex, pid := s.pid, acc := s.acc,
+    furcations := s.furc.map (fun (x : Nat) => (x : Int)), conn := s.conn, mask := s.mask, cost := cost, i := i, j := j, underscore_ := u }
+
+theorem idx_map_cast (l : List Nat) (a : Nat) (h : a < l.length) :
+    Py.idx (l.map (fun (x : Nat) => (x : Int))) (a : Int) = some ((l.getD a 0 : Nat) : Int) := by
+  rw [Py.idx_nat_getD _ a 0 (by simpa using h)]
+  simp [List.getD_eq_getElem?_getD, List.getElem?_eq_getElem h]
+
+theorem for1_step (n : Nat) (hn : 0 < n) (dis : List (List Rat)) (hd : SquareQ n dis) (bf : Rat) (k : Int) (ex : Bool)
+    (x : Int) (s : St) (hs : Shape n s) (c : Py.Masked2 Rat) (i j u : Int) :
+    ∃ c' i' j', mst_loop.for1 x (toV n dis bf k ex s c i j u) =
+      .next (toV n dis bf k ex (step dis bf (limitOf k) ex n s) c' i' j' x) := by
+  obtain ⟨hA, hi, hj⟩ := maArgmin_eq dis bf s n hn hd hs
+  rw [step_eq]
+  generalize (argmin dis bf s n).1 = a at hA hi ⊢
+  generalize (argmin dis bf s n).2 = b at hA hj ⊢
+  obtain ⟨hpid, hacc, hfurc, hconn, hmask⟩ := hs
+  have hcl := costM_lengths dis bf s.acc n hd hacc
+  have hB : Py.bcastCol (fun x y => x + y) dis (s.acc.map (fun x => bf * x)) = some (costM dis bf s.acc) :=
+    Py.bcastCol_same _ _ _ (by simp [hd.1, hacc])
+  have hC : Py.maArray (costM dis bf s.acc) s.mask = some (costM dis bf s.acc, s.mask) := by
+    simp [Py.maArray, lengths_eq_replicate hcl, lengths_eq_replicate hmask]
+  have hS : Py.shape2 (costM dis bf s.acc) = ((n : Int), (n : Int)) := by
+    obtain ⟨h1, h2⟩ := hcl
+    cases hcm : costM dis bf s.acc with
+    | nil => rw [hcm] at h1; simp at h1; omega
+    | cons r rs =>
+      rw [hcm] at h1 h2
+      have := h2 r (List.mem_cons_self)
+      simp only [Py.shape2, List.headD_cons, this, h1]
+  have hU := Py.unravelIndex_nat a b n hi hj
+  refine ⟨(costM dis bf s.acc, s.mask), (a : Int), (b : Int), ?_⟩
+  -- the child count
+  have hF1 : Py.idx (s.furc.map (fun (x : Nat) => (x : Int))) (a : Int) = some ((s.furc.getD a 0 : Nat) : Int) :=
+    idx_map_cast _ _ (by omega)
+  have hF2 : Py.setIdx (s.furc.map (fun (x : Nat) => (x : Int))) (a : Int) (((s.furc.getD a 0 : Nat) : Int) + 1) =
+      some ((s.furc.set a (s.furc.getD a 0 + 1)).map (fun (x : Nat) => (x : Int))) := by
+    rw [Py.setIdx_nat _ a _ (by simp; omega), List.map_set]; rfl
+  have hF3 : Py.idx ((s.furc.set a (s.furc.getD a 0 + 1)).map (fun (x : Nat) => (x : Int))) (a : Int) =
+      some (((s.furc.set a (s.furc.getD a 0 + 1)).getD a 0 : Nat) : Int) :=
+    idx_map_cast _ _ (by simp; omega)
+  -- the saturation test
+  have hT : (if decide (k ≠ -1) = true then
+        (some (((s.furc.set a (s.furc.getD a 0 + 1)).getD a 0 : Nat) : Int)).bind fun t14 =>
+          if decide (t14 ≥ k) = true then some (!ex || decide ((a : Int) ≠ 0)) else some false
+      else some false) = some (satFlag (limitOf k) ex ((s.furc.set a (s.furc.getD a 0 + 1)).getD a 0) a) := by
+    generalize (s.furc.set a (s.furc.getD a 0 + 1)).getD a 0 = f
+    unfold limitOf satFlag
+    by_cases hk : k = -1
+    · simp [hk]
+    · have h1 : ((f : Int) ≥ k) ↔ f ≥ k.toNat := by omega
+      have h2 : ((a : Int) ≠ 0) ↔ a ≠ 0 := by omega
+      by_cases h3 : f ≥ k.toNat <;> by_cases h4 : a = 0 <;> cases ex <;> simp [hk, h1, h3, h4]
+  -- the masks
+  have hM1 : Py.setRowConst s.mask (a : Int) true = some (s.mask.set a (List.replicate n true)) := by
+    rw [Py.setRowConst_nat _ a _ (by have := hmask.1; omega), getD_row_length hmask a hi]
+  have hM2 : Py.setColConst (s.mask.set a (List.replicate n true)) (a : Int) true = some (cross s.mask a (List.replicate n true)) := by
+    rw [Py.setColConst_nat]; rfl
+    intro r hr
+    rcases List.mem_or_eq_of_mem_set hr with h | h
+    · rw [hmask.2 r h]; exact hi
+    · rw [h]; simpa using hi
+  have hP : Py.setIdx s.pid (b : Int) (a : Int) = some (s.pid.set b (a : Int)) := Py.setIdx_nat _ _ _ (by omega)
+  have hA1 : Py.idx s.acc (a : Int) = some (s.acc.getD a 0) := Py.idx_nat_getD _ _ _ (by omega)
+  have hA2 : Py.idx2 dis (a : Int) (b : Int) = some ((dis.getD a []).getD b 0) :=
+    Py.idx2_nat _ _ _ _ (by have := hd.1; omega) (by rw [getD_row_length hd a hi]; exact hj)
+  have hA3 : ∀ y, Py.setIdx s.acc (b : Int) y = some (s.acc.set b y) := fun y => Py.setIdx_nat _ _ _ (by omega)
+  have hC1 : Py.setIdx s.conn (b : Int) true = some (s.conn.set b true) := Py.setIdx_nat _ _ _ (by omega)
+  have hR : ∀ m1, Square n m1 → Py.setRow m1 (b : Int) (s.conn.set b true) = some (m1.set b (s.conn.set b true)) := by
+    intro m1 hm1
+    exact Py.setRow_nat _ _ _ (by have := hm1.1; omega) (by rw [getD_row_length hm1 b hj]; simp [hconn])
+  have hR2 : ∀ m1, Square n m1 → Py.setColConst (m1.set b (s.conn.set b true)) (b : Int) true = some (cross m1 b (s.conn.set b true)) := by
+    intro m1 hm1
+    rw [Py.setColConst_nat]; rfl
+    intro r hr
+    rcases List.mem_or_eq_of_mem_set hr with h | h
+    · rw [hm1.2 r h]; exact hj
+    · rw [h]; simpa [hconn] using hj
+  have hsq1 : Square n (cross s.mask a (List.replicate n true)) := cross_square a hmask (by simp)
+  simp only [mst_loop.for1, toV, Py.seq, Py.bind, hB, hC, hA, hS, hU, hF1, hF2, hF3, hT]
+  by_cases hsat : satFlag (limitOf k) ex ((s.furc.set a (s.furc.getD a 0 + 1)).getD a 0) a = true
+  · simp only [hsat, if_true, hM1, hM2, hP, hA1, hA2, hA3, hC1, hR _ hsq1, hR2 _ hsq1, stepAt]
+  · simp only [hsat, if_false, Py.skip, hP, hA1, hA2, hA3, hC1, hR _ hmask, hR2 _ hmask, stepAt, Bool.false_eq_true]
+
+/-! ## the loop -/
+
+theorem stepAt_shape (dis : List (List Rat)) (limit : Option Nat) (ex : Bool) (n : Nat) (s : St) (a b : Nat)
+    (hs : Shape n s) : Shape n (stepAt dis limit ex n s a b) := by
+  obtain ⟨hpid, hacc, hfurc, hconn, hmask⟩ := hs
+  refine ⟨by simp [stepAt, hpid], by simp [stepAt, hacc], by simp [stepAt, hfurc], by simp [stepAt, hconn], ?_⟩
+  show Square n (cross (if _ then _ else _) b (s.conn.set b true))
+  split
+  · exact cross_square b (cross_square a hmask (by simp)) (by simp [hconn])
+  · exact cross_square b hmask (by simp [hconn])
+
+theorem step_shape (dis : List (List Rat)) (bf : Rat) (limit : Option Nat) (ex : Bool) (n : Nat) (s : St)
+    (hs : Shape n s) : Shape n (step dis bf limit ex n s) := by
+  rw [step_eq]; exact stepAt_shape dis limit ex n s _ _ hs
+
+theorem for1_loop (n : Nat) (hn : 0 < n) (dis : List (List Rat)) (hd : SquareQ n dis) (bf : Rat) (k : Int) (ex : Bool) :
+    ∀ (xs : List Int) (s : St), Shape n s → ∀ (c : Py.Masked2 Rat) (i j u : Int),
+      ∃ c' i' j' u', Py.forEach mst_loop.for1 xs (toV n dis bf k ex s c i j u) =
+        .next (toV n dis bf k ex (run dis bf (limitOf k) ex n xs.length s) c' i' j' u') := by
+  intro xs
+  induction xs with
+  | nil => intro s _ c i j u; exact ⟨c, i, j, u, rfl⟩
+  | cons x xs ih =>
+    intro s hs c i j u
+    obtain ⟨c1, i1, j1, e1⟩ := for1_step n hn dis hd bf k ex x s hs c i j u
+    obtain ⟨c2, i2, j2, u2, e2⟩ := ih _ (step_shape dis bf (limitOf k) ex n s hs) c1 i1 j1 x
+    refine ⟨c2, i2, j2, u2, ?_⟩
+    simp only [Py.forEach, e1, e2, List.length_cons, run]
+
+theorem init_shape (n : Nat) : Shape n (init n) := by
+  refine ⟨by simp [init], by simp [init], by simp [init], by simp [init], by simp [init], ?_⟩
+  intro r hr
+  simp only [init, List.mem_map, List.mem_range] at hr
+  obtain ⟨i, _, rfl⟩ := hr
+  simp
+
+theorem init_conn_eq (n : Nat) : (List.replicate n false).set 0 true = (List.range n).map (· == 0) := by
+  apply List.ext_getElem
+  · simp
+  · intro i h1 h2
+    simp only [List.getElem_set, List.getElem_replicate, List.getElem_map, List.getElem_range]
+    by_cases h : i = 0
+    · subst h; simp
+    · have : ¬ 0 = i := fun e => h e.symm
+      simp [h, this]
+
+theorem init_mask_eq (n : Nat) (hn : 0 < n) :
+    ((List.replicate n (List.replicate n true)).set 0 (List.replicate n false)).set 0
+      ((((List.replicate n (List.replicate n true)).set 0 (List.replicate n false)).getD 0 []).set 0 true) =
+    (List.range n).map fun i => (List.range n).map fun j => if i = 0 then j == 0 else true := by
+  have e0 : ((List.replicate n (List.replicate n true)).set 0 (List.replicate n false)).getD 0 [] = List.replicate n false := by
+    simp [List.getD_eq_getElem?_getD, hn]
+  rw [e0, init_conn_eq, List.set_set]
+  apply List.ext_getElem
+  · simp
+  · intro i h1 h2
+    simp only [List.getElem_set, List.getElem_replicate, List.getElem_map, List.getElem_range]
+    by_cases h : i = 0
+    · subst h; simp
+    · have : ¬ 0 = i := fun e => h e.symm
+      simp only [this, if_false, h]
+      apply List.ext_getElem
+      · simp
+      · intro j _ _; simp
+
+/-- **the generated greedy loop equals the model**: for every `n > 0`, every `n × n` distance matrix, every balancing factor, every
+value of `furcations` and `exclude_soma`, the definition generated from the source returns exactly the parents, path lengths, child
+counts, connected flags and mask of `Mst.run … (n - 1) (Mst.init n)` (in particular it never raises) -/
+theorem mst_loop_refines (n : Nat) (hn : 0 < n) (dis : List (List Rat)) (hd : SquareQ n dis) (bf : Rat) (k : Int) (ex : Bool) :
+    mst_loop (K := Rat) (n : Int) dis bf k ex =
+      some ((run dis bf (limitOf k) ex n (n - 1) (init n)).pid, (run dis bf (limitOf k) ex n (n - 1) (init n)).acc,
+        (run dis bf (limitOf k) ex n (n - 1) (init n)).furc.map (fun (x : Nat) => (x : Int)),
+        (run dis bf (limitOf k) ex n (n - 1) (init n)).conn, (run dis bf (limitOf k) ex n (n - 1) (init n)).mask, ()) := by
+  have hr : Py.range ((n : Int) - 1) = (List.range (n - 1)).map (fun (k : Nat) => (k : Int)) := by
+    have : ((n : Int) - 1) = ((n - 1 : Nat) : Int) := by omega
+    rw [this, Py.range_natCast]
+  have hc : Py.setIdx (List.replicate n false) (0 : Int) true = some ((List.replicate n false).set 0 true) :=
+    Py.setIdx_nat _ 0 _ (by simpa using hn)
+  have hm1 : Py.setRowConst (List.replicate n (List.replicate n true)) (0 : Int) false =
+      some ((List.replicate n (List.replicate n true)).set 0 (List.replicate n false)) := by
+    have := Py.setRowConst_nat (List.replicate n (List.replicate n true)) 0 false (by simpa using hn)
+    simpa [List.getD_eq_getElem?_getD, hn] using this
+  have hm2 := Py.setIdx2_nat ((List.replicate n (List.replicate n true)).set 0 (List.replicate n false)) 0 0 true
+    (by simpa using hn) (by simp [List.getD_eq_getElem?_getD, hn])
+  obtain ⟨c', i', j', u', e⟩ := for1_loop n hn dis hd bf k ex ((List.range (n - 1)).map (fun (k : Nat) => (k : Int))) (init n)
+    (init_shape n) (default : mst_loop.V Rat).cost (default : mst_loop.V Rat).i (default : mst_loop.V Rat).j
+    (default : mst_loop.V Rat).underscore_
+  simp only [List.length_map, List.length_range, toV, init, List.map_replicate, Nat.cast_zero] at e
+  simp only [mst_loop, mst_loop.body, Py.seq, Py.bind, Py.full_nat, Py.full2_nat, hc, hm1]
+  have hm2' : Py.setIdx2 ((List.replicate n (List.replicate n true)).set 0 (List.replicate n false)) (0 : Int) (0 : Int) true = _ := hm2
+  rw [hm2']
+  simp only [init_conn_eq, init_mask_eq n hn]
+  rw [hr, e]
+  rfl
+
+/-- without points the generated loop raises (as the source does: `np.full` of a negative size, `conn[0] = True` on an empty array) -/
+theorem mst_loop_raises (n : Int) (hn : n ≤ 0) (dis : List (List Rat)) (bf : Rat) (k : Int) (ex : Bool) :
+    mst_loop (K := Rat) n dis bf k ex = none := by
+  by_cases h0 : n = 0
+  · subst h0
+    simp [mst_loop, mst_loop.body, Py.seq, Py.bind, Py.full, Py.setIdx, Py.normIdx, Py.finish]
+  · have : n < 0 := by omega
+    simp [mst_loop, mst_loop.body, Py.seq, Py.bind, Py.full_neg n _ this, Py.finish]
+
+-- non-vacuity: 4 points on a line at 0, 10, 11, 1 (the matrix of `C17.exDis`)
+example : SquareQ 4 [[0, 10, 11, 1], [10, 0, 1, 9], [11, 1, 0, 10], [1, 9, 10, 0]] := ⟨rfl, by decide⟩
+example : (mst_loop (K := Rat) 4 [[0, 10, 11, 1], [10, 0, 1, 9], [11, 1, 0, 10], [1, 9, 10, 0]] 0 (-1) true).map (·.1) =
+    some [-1, 3, 1, 0] := by decide +kernel
+example : (mst_loop (K := Rat) 4 [[0, 10, 11, 1], [10, 0, 1, 9], [11, 1, 0, 10], [1, 9, 10, 0]] 1 1 false).map (·.1) =
+    some [-1, 3, 1, 0] := by decide +kernel
+
 end RefineMst
